@@ -676,6 +676,58 @@ func c19ErrFeature(e string) string {
 }
 
 // RunC19 is the entry point of the C19 check.
+// c19AfterRejected: a configuration which is rejected while its CRLs are loaded (unknown signer under verify) is
+// cleaned up as caddy does with a module whose Provision failed; the corrected configuration with the same work_dir
+// must then provision (valid option values provision successfully - whatever was tried before in this process).
+func c19AfterRejected(chk *fw.Check) int {
+	p := world.Std()
+	n := 0
+	for _, storage := range []string{"memory", "disk"} {
+		for _, source := range []string{"crl_files", "crl_urls"} {
+			n++
+			sig := "storage=" + storage + " source=" + source
+			seqWorld(func() {
+				net := world.NewNet()
+				dir, files := FreshDir("c19r"), FreshDir("c19rf")
+				defer os.RemoveAll(dir)
+				defer os.RemoveAll(files)
+				const u = "http://crl.test/c19.crl"
+				foreign := world.SimpleCRL(p.OtherCA, 1, 5).DER()
+				good := world.SimpleCRL(p.CA, 1, 5).DER()
+				f := filepath.Join(files, "list.crl")
+				mk := func(doc []byte) *TW {
+					cfg := &config.CRLConfig{WorkDir: dir, StorageType: storage, TrustedSignatureCertsFiles: []string{WritePEM(files, "ca.pem", p.CA.Cert)}}
+					if source == "crl_files" {
+						os.WriteFile(f, doc, 0644)
+						cfg.CRLFiles = []string{f}
+					} else {
+						net.Serve(u, "doc", doc)
+						cfg.CRLUrls = []string{u}
+					}
+					return NewTW(TWOpt{Mode: "crl_only", Net: net, CRL: cfg})
+				}
+				bad := mk(foreign)
+				if err := bad.Provision(); err == nil {
+					chk.Violation("C19|harness|rejected-config-provisions|"+sig, "a configured CRL of an unknown signer was accepted under verify", nil)
+					bad.Cleanup()
+					return
+				}
+				bad.Cleanup()
+				vsched.Drain()
+				ok := mk(good)
+				if err := ok.Provision(); err != nil {
+					chk.Violation("C19|valid-config-refused-after-a-rejected-one|"+sig, "a valid configuration is refused after a configuration with the same work_dir had been rejected and cleaned up: "+err.Error(), nil)
+					return
+				}
+				vsched.Drain()
+				ok.Cleanup()
+				vsched.Drain()
+			})
+		}
+	}
+	return n
+}
+
 func RunC19(tier string, args []string) int {
 	if len(args) > 0 && args[0] == "hworker" {
 		shard, _ := strconv.Atoi(args[2])
@@ -692,6 +744,7 @@ func RunC19(tier string, args []string) int {
 		"documented defaults: prefer_ocsp, disk, 30m, verify, fetch_actively, strict off, cache 0, aia_strict off",
 	}
 	total := runHWorkers(chk, "C19", tier, 16)
+	total.Stats.Transitions += c19AfterRejected(chk)
 	nontrivial := 0
 	for k, v := range total.Outcomes {
 		_ = k
